@@ -1,0 +1,19 @@
+//go:build verif
+
+package app
+
+// Machine-checked contracts for the CLI actions (comment-only; compiled only with -tags verif).
+
+// runTasks: a non-zero exit status of any command of any executed task makes the action fail.
+//@ func (*App).runTasks
+//@ props C09
+//@ requires a.Options != nil && runner != nil && TasksInv(spokfile) && I01(cp(spokfile))
+//@ modifies fexists, fdata, last, ranCount, dagV, dagE, dagItem, dagN, qpos, lastGraph, runPhase, mapOf(spokfile.Globs), lastResults
+//@ at return Run#0: ghost lastResults = results
+//@ ensures [C09,failing-command-fails-action] result == nil ==> tasksOk(lastResults, len(lastResults))
+//@ ensures [C09,notcached] forall i int :: {lastResults[i]} result != nil && runPhase == 1 && 0 <= i && i < len(lastResults) && !lastResults[i].Skipped && !cmdsOk(lastResults[i].CommandResults, len(lastResults[i].CommandResults)) ==> diskGet(cp(spokfile), lastResults[i].Task) == "" && last[lastResults[i].Task] == ""
+//@ ensures I01(cp(spokfile))
+//@ loop 0: invariant 0 <= $i && $i <= len(results) && tasksOk(results, $i)
+//@ loop 0: decreases len(results) - $i
+//@ loop 1: invariant 0 <= $i && $i <= len(result.CommandResults) && cmdsOk(result.CommandResults, $i)
+//@ loop 1: decreases len(result.CommandResults) - $i
